@@ -8,7 +8,7 @@ CONSTANTS
   Ticks = TRUE
   Beh = FALSE
   Mut = "none"
-  AddEv = TRUE
+  AddEv = FALSE
 CHECK_DEADLOCK FALSE
 VIEW View
 INVARIANTS TypeOK Inv_Running C18_TimersOfLiveHandlers
